@@ -86,6 +86,7 @@ class SuspDecoder:
         name_done = False
         sl_comps = []            # list of (flags, bytes)
         sl_continue = False
+        sl_seen = False
         seen = set()
         hops = 0
         where = 'dr'
@@ -183,6 +184,12 @@ class SuspDecoder:
                         info.is_symlink = True
                         flags = body[0]
                         p = 1
+                        if sl_seen and not sl_continue:
+                            # RRIP 4.1.3: the previous SL entry did not announce a continuation, so for a conforming reader
+                            # the target ended there; what this entry holds is lost
+                            self.anom('rrip.4.1.3/sl-after-final', base + off)
+                            p = len(body)
+                        sl_seen = True
                         while p < len(body):
                             if p + 2 > len(body):
                                 self.anom('rrip.4.1.3.1/component-header', base + off + 4 + p)
